@@ -786,6 +786,33 @@ VResult oracle(const VCase &vc, int method) {
   const Case k = unpack(vc, method);
   const Block &B = k.B;
   Obs o = run_code(k); // a VerifAbort propagates: "unexpected abort"
+  // everything the code returns is finite (the comparisons below are written
+  // as |a-b| > tol and would let a NaN pass)
+  {
+    for (int i = 0; i < 3; ++i)
+      if (!std::isfinite(o.pend[i]) || !std::isfinite(o.d[i])) {
+        r.fail(fmt("the packet's final position/direction component %d is "
+                   "%g / %g", i, o.pend[i], o.d[i]));
+        return r;
+      }
+    if (!std::isfinite(o.tau_after)) {
+      r.fail(fmt("the packet's remaining optical depth is %g", o.tau_after));
+      return r;
+    }
+    for (size_t q = 0; q < o.dJ.size(); ++q)
+      if (!std::isfinite(o.dJ[q])) {
+        r.fail(fmt("cell %zu: intensity integral of ion %zu grew by %g",
+                   q / NUMBER_OF_IONNAMES, q % NUMBER_OF_IONNAMES, o.dJ[q]));
+        return r;
+      }
+    for (size_t q = 0; q < o.dH.size(); ++q)
+      if (!std::isfinite(o.dH[q])) {
+        r.fail(fmt("cell %zu: heating term %zu grew by %g",
+                   q / NUMBER_OF_HEATINGTERMS, q % NUMBER_OF_HEATINGTERMS,
+                   o.dH[q]));
+        return r;
+      }
+  }
   if (getenv("C02_TRACE")) { // diagnostics for --replay only
     fprintf(stderr, "TRACE out=%d pend-anchor=%.17g %.17g %.17g tau_after=%.17g d=%.17g %.17g %.17g\n",
             o.out, o.pend[0] - B.anchor[0], o.pend[1] - B.anchor[1],
